@@ -127,7 +127,9 @@ pub fn pp_case(idx: usize, src: &str, origin: &str) -> Value {
 // ------------------------------------------------------------------ random abstract programs
 const NAMES: &[&str] = &["A", "B", "C", "t", "list", "record_", "Z9", "a_b", "ab", "class", "return", "Self", "type_", "null_", "Ok", "é", "a b", "nat2", "\"q\"", "x\u{0}y", "0a", "", "*/", "${x}", "`b`", "'s'", "line\nbreak"];
 pub const RS_FIELD_NAMES: &[&str] = &["a", "b", "ab", "a_b", "aB", "A_b", "type", "Type", "Match", "fn", "self", "Self", "ref", "Ref", "id", "x1", "camelCase", "snake_case", "é", "a b", "0", "Ok", "Err", "ok", "err", "crate", "r#x"];
-const FIELD_NAMES: &[&str] = &["a", "b", "ab", "ba", "id", "type", "fn", "0", "é", "a b", "x\u{0}1", "record", "\\", "\"", "Ok", "Err", "*/", "from", "self"];
+const FIELD_NAMES: &[&str] = &["a", "b", "ab", "ba", "id", "type", "fn", "0", "é", "a b", "x\u{0}1", "record", "\\", "\"", "Ok", "Err", "*/", "from", "self",
+    // every word the Candid lexer does not read as an identifier, and a few it does
+    "true", "false", "null", "opt", "vec", "variant", "service", "func", "query", "oneway", "composite_query", "blob", "principal", "import", "nan", "inf", "float64", "empty", "reserved", "bool", "text", "nat", "int8"];
 pub struct PG { pub rng: StdRng, pub ndefs: usize, pub ident_methods: bool, pub valid: bool, pub docs: bool, pub hostile: bool, pub uniq: usize, pub rs_names: bool, pub no_numeric: bool }
 const DOCS: &[&str] = &["plain text", "*/ INJ1 /*", "// INJ2", "\" INJ3 \"", "' + INJ4 + '", "`${INJ5}`", "*/", "/*", "\\", "ends with backslash \\", "</script>", "é", "*\\/ INJ6 /*", "*/*/ INJ13"];
 const HOSTILE: &[&str] = &["a\"; INJ7; \"", "b'; INJ8; '", "*/ INJ9 /*", "\\\"; INJ10; //", "x\n INJ11", "`${INJ12}`", "'", "\\", "\\'"];
@@ -179,7 +181,7 @@ impl PG {
     }
     pub fn serv(&mut self, names: &[String], depth: usize) -> Value {
         let n = self.rng.gen_range(0..4);
-        let pool: &[&str] = if self.ident_methods { &["m", "get", "set_x", "f1", "transfer", "n"] } else { &["m", "get", "a b", "é", "*/", "\"", "class", "", "x\u{0}", "${y}", "f'", "line\nbreak"] };
+        let pool: &[&str] = if self.ident_methods { &["m", "get", "set_x", "f1", "transfer", "n", "true", "false", "null", "query", "service", "type"] } else { &["m", "get", "a b", "é", "*/", "\"", "class", "", "x\u{0}", "${y}", "f'", "line\nbreak", "true", "false", "null", "query", "oneway", "func", "import"] };
         let mut ms: Vec<Value> = vec![];
         for _ in 0..n {
             let mut name = pool.choose(&mut self.rng).unwrap().to_string();
